@@ -183,8 +183,18 @@ def reject_case(draw):
     g = draw(gen.geom(nmax=9))
     nd = len(g["n"])
     kind = draw(st.sampled_from(["point-outside", "index-out", "index-arity", "point-arity",
-                                 "index-type", "point-type", "one-bad-element", "constructor"]))
+                                 "index-type", "point-type", "one-bad-element", "constructor", "tolerance-band",
+                                 "tolerance-band"]))
+    if kind == "tolerance-band":
+        # a region with its own comparison tolerance, close to the origin (the band must be resolvable in floating point)
+        g = draw(gen.geom(nmax=6, exps=(-9, 3), big_offsets=False))
+        g["tol"] = draw(st.sampled_from([1e-6, 1e-8, 1e-9, 1e-10]))
+        nd = len(g["n"])
     c = {"g": g, "kind": kind}
+    if kind == "tolerance-band":
+        c["axis"] = draw(st.integers(0, nd - 1))
+        c["side"] = draw(st.integers(0, 1))
+        c["probe"] = draw(gen.probe_spec(g["n"], ("c", "f")))
     if kind == "one-bad-element":
         # a single malformed entry among good ones (point, index, cell, n)
         c["what"] = draw(st.sampled_from(["point-str", "point-complex", "index-float", "index-str", "cell-nonpositive",
@@ -263,6 +273,32 @@ def check_reject(case):
     elif kind == "point-type":
         bad = {"str": "abc"[: lat.ndim] if lat.ndim <= 3 else "abcd", "none": None, "complex": [1j] * lat.ndim}[case["bad"]]
         _expect_raise(lambda: mesh.point2index(bad), (TypeError, ValueError), "bad-point-type-accepted", repr(bad))
+    elif kind == "tolerance-band":
+        # "up to the region's comparison tolerance": tolerance_factor * smallest edge, the region's own value
+        tolf = float(region.tolerance_factor)
+        band = tolf * float(min(lat.pmax[d] - lat.pmin[d] for d in range(lat.ndim)))  # the absolute part
+        ax, side = case["axis"], case["side"]
+        base = [float(x) for x in lat.point(case["probe"])]
+        face = float(lat.pmax[ax]) if side else float(lat.pmin[ax])
+        mag = max(abs(float(lat.pmin[ax])), abs(float(lat.pmax[ax])))
+        if band < 1e4 * np.finfo(float).eps * mag:
+            from pbt.core import Reject
+            raise Reject()  # the band is not resolvable at this distance from the origin
+        sign = 1.0 if side else -1.0
+        inside_band = list(base)
+        inside_band[ax] = face + sign * 0.2 * band
+        beyond = list(base)
+        beyond[ax] = face + sign * 50 * (band + tolf * mag)  # well beyond absolute + relative tolerance
+        require(tuple(inside_band) in region, "band-point-not-in-region", f"{inside_band} tolerance_factor={tolf}")
+        try:
+            idx = mesh.point2index(tuple(inside_band))
+        except (ValueError, IndexError) as e:
+            raise Violation("band-point-rejected", f"point {inside_band} is within the region's tolerance ({tolf:g} x smallest "
+                                                   f"edge) of the face and `in region`, but point2index raises: {e}") from None
+        want = (int(g["n"][ax]) - 1) if side else 0
+        require(idx[ax] == want, "band-point-index", f"{idx[ax]} vs {want}")
+        require(not (tuple(beyond) in region), "beyond-band-in-region", f"{beyond}")
+        _expect_raise(lambda: mesh.point2index(tuple(beyond)), (ValueError, IndexError), "beyond-band-accepted", f"point {beyond}")
     elif kind == "one-bad-element":
         what, ax = case["what"], case["axis"]
         tag(what)
